@@ -361,7 +361,10 @@ _c01 = {}
 exec(compile(open("/verif/specs/C01/spec.py").read(), "/verif/specs/C01/spec.py", "exec"), _c01)
 for _u in _c01["UNITS"]:
     if _u.name in ("word.restore_state_1", "word.restore_state_2", "word.set_state_tagged", "sw.ctor", "sw.store_state", "sw.store_state.owner",
-                   "sw.dtor", "sw.assign", "loop.run_one"):
+                   "sw.dtor", "sw.assign", "loop.run_one",
+                   # the hand-off of a woken task: set_thread_state -> schedule_thread puts it into work_items_ and counts it; the counter
+                   # never under-approximates the entries (a worker that reads 0 does not look) -- added after seeded change C02-6 was missed
+                   "queue.schedule_thread", "queue.get_next_thread"):
         _u.name = "c01." + _u.name
         _u.template = "../C01/" + _u.template
         UNITS.append(_u)
